@@ -463,6 +463,17 @@ class CalSim:
                                      f"{b.cls} proposed {out[oob, j][0]!r} for parameter {j}, outside the declared bounds "
                                      f"[{lo_hi[0][j]!r}, {lo_hi[1][j]!r}] (+-1e-7)"))
                     return
+            if lo_hi is not None:
+                prec_j = float(self.cfg["space"]["precision"][j])
+                kk = np.rint((out[:, j] - lo_hi[0][j]) / prec_j)
+                ref = lo_hi[0][j] + kk * prec_j
+                tol = 1e-9 * max(abs(lo_hi[0][j]), abs(prec_j), 1e-300) + 1e-12 * np.abs(out[:, j])
+                offd = (np.abs(out[:, j] - ref) > tol) | (kk < 0)
+                if offd.any():
+                    self.mon.append(("C03", "off-declared-grid", b.cls,
+                                     f"{b.cls} proposed {out[offd, j][0]!r} for parameter {j}: not lower + k*precision (lower {lo_hi[0][j]!r}, "
+                                     f"precision {prec_j!r})"))
+                    return
             bad = ~np.isin(out[:, j], space.param_grid[j])
             if bad.any():
                 self.stats["probe:offgrid"] += 1
